@@ -1,7 +1,130 @@
-(* C09 - Bloom filter.  Statements only; proofs are in Proofs/BloomProofs.v. *)
+(* C09 - Bloom filter: no false negatives; the bits are exactly the reference hash positions;
+   bits_used is the population count; the codec round-trips.
+   Statements only; proofs are in Proofs/BloomProofs.v (and Proofs/BloomBits.v).
+
+   Setting.  The model (Model/Bloom.v) takes the two XXH64 digests (h0, h1) of an item as
+   inputs; the theorems quantify over ARBITRARY digests, so they hold for the crate's
+   h0 = XXH64(item, seed), h1 = XXH64(item, h0) in particular (the hasher is C16's subject;
+   the correspondence check feeds the items to the crate and the reference digests to the
+   model).  A filter is created by with_size(num_bits, nh).seed(seed) in the builder's ranges
+   ([size_ok]); its capacity is [cap num_bits] = 64 * ceil(num_bits / 64).
+
+   "All histories": [hist] is the type of expressions built from a fresh filter by insert,
+   contains_and_insert, union, intersect (both operands are histories again), invert, reset
+   and serialize-then-deserialize.  [eval] runs a history on the model; [denote] is the Spec:
+   the SET of bit positions the history stands for; [member] lists the items whose
+   membership a history guarantees (inserted; in either operand of a union; in both
+   operands of an intersect; nothing survives invert / reset).
+
+   The statistical claim of C09 (measured false-positive rate near p for with_accuracy(n, p))
+   has no theorem: it is a statement about the distribution of XXH64 outputs and about the
+   ln-based sizing.  It is only measured (tools/families/bloom.py, bloom-fpp cases). *)
 From DS Require Import Base.Prelude Model.Bloom Proofs.BloomProofs.
 Open Scope N_scope.
 
+(* (d) every index computed by compute_bit_index lies inside the array *)
 Theorem c09_position_range :
   forall cap nh h0 h1 p, 0 < cap -> In p (positions cap nh h0 h1) -> p < cap.
 Proof. exact positions_range. Qed.
+
+(* ... and the indices are the property's formula ((h0 + i*h1) mod 2^64 >> 1) mod capacity, i = 1..num_hashes *)
+Theorem c09_positions_formula :
+  forall cap nh h0 h1 p,
+  In p (positions cap nh h0 h1) <->
+  exists i, 1 <= i <= nh /\ p = ((h0 + i * h1) mod 2 ^ 64 / 2) mod cap.
+Proof. exact positions_formula. Qed.
+
+(* every history runs (no panic, no error) and yields a well-formed filter of the configured shape
+   whose bits are exactly the history's position set *)
+Theorem c09_history_refines_set :
+  forall num_bits nh seed, size_ok num_bits nh seed ->
+  forall h : hist, exists f,
+    eval num_bits nh seed h = Ok f /\
+    (forall p, get_bit (bf_words f) p = true <-> denote num_bits nh h p) /\
+    wf f /\ bf_nh f = nh /\ bf_seed f = seed /\ bf_capacity f = cap num_bits.
+Proof. exact hist_refines_set. Qed.
+
+(* (a) plain streams: after ANY sequence of insert / contains_and_insert calls (the boolean says
+   which of the two was used) the set bits are exactly the positions of the items of the stream *)
+Theorem c09_bits_exact :
+  forall num_bits nh seed, size_ok num_bits nh seed ->
+  forall items : list (bool * (N * N)),
+  let f := fold_left stream_step items (fresh num_bits nh seed) in
+  forall p, get_bit (bf_words f) p = true <->
+            exists cai h0 h1, In (cai, (h0, h1)) items /\ In p (pos_of num_bits nh h0 h1).
+Proof. exact stream_bits_exact. Qed.
+
+(* contains answers exactly "all positions of the item are in the set" (the empty shortcut included) *)
+Theorem c09_contains_exact :
+  forall num_bits nh seed, size_ok num_bits nh seed ->
+  forall h f h0 h1, eval num_bits nh seed h = Ok f ->
+  (bf_contains f h0 h1 = true <-> forall p, In p (pos_of num_bits nh h0 h1) -> denote num_bits nh h p).
+Proof. exact hist_contains. Qed.
+
+(* (b) no false negatives: inserted items are contained - also items inserted into either operand of a
+   union, items inserted into both operands of an intersect, and after serialize/deserialize *)
+Theorem c09_no_false_negatives :
+  forall num_bits nh seed, size_ok num_bits nh seed ->
+  forall h f h0 h1, eval num_bits nh seed h = Ok f -> member h (h0, h1) -> bf_contains f h0 h1 = true.
+Proof. exact hist_no_false_negative. Qed.
+
+(* (c) after every history bits_used is the number of set positions of the array (counted position by
+   position through get_bit) and equals the word-wise popcount; (e) the filter survives the codec *)
+Theorem c09_bits_used_is_popcount :
+  forall num_bits nh seed, size_ok num_bits nh seed ->
+  forall h f, eval num_bits nh seed h = Ok f ->
+  bf_used f = N.of_nat (length (filter (get_bit (bf_words f)) (all_positions f))) /\
+  bf_used f = popcount_words (bf_words f) /\
+  bf_deserialize (bf_serialize f) = Ok f.
+Proof. exact hist_bits_used. Qed.
+
+(* (c) invert: bits_used becomes capacity - bits_used *)
+Theorem c09_invert_bits_used :
+  forall num_bits nh seed, size_ok num_bits nh seed ->
+  forall h f g, eval num_bits nh seed h = Ok f -> eval num_bits nh seed (HInvert h) = Ok g ->
+  bf_used g = cap num_bits - bf_used f.
+Proof. exact hist_invert_used. Qed.
+
+(* (e) round trip for EVERY filter satisfying the codec's side conditions (not only reachable ones:
+   the count merely has to be within the capacity and 0 only for an all-zero array) ... *)
+Theorem c09_roundtrip :
+  forall f, codec_ok f -> bf_deserialize (bf_serialize f) = Ok f.
+Proof. exact roundtrip. Qed.
+
+(* ... which every well-formed filter satisfies *)
+Theorem c09_wf_codec_ok : forall f, wf f -> codec_ok f.
+Proof. exact wf_codec_ok. Qed.
+
+(* the single-operation refinement steps the history theorem is composed of (usable on any
+   well-formed filters, e.g. deserialized ones) *)
+Theorem c09_union_is_set_union :
+  forall a b S T, Rep a S -> Rep b T -> bf_is_compatible a b = true ->
+  exists c, bf_union a b = Ok c /\ Rep c (fun p => S p \/ T p) /\ same_cfg a c.
+Proof. exact union_rep. Qed.
+
+Theorem c09_intersect_is_set_intersection :
+  forall a b S T, Rep a S -> Rep b T -> bf_is_compatible a b = true ->
+  exists c, bf_intersect a b = Ok c /\ Rep c (fun p => S p /\ T p) /\ same_cfg a c.
+Proof. exact intersect_rep. Qed.
+
+(* contains_and_insert reports the membership BEFORE the insertion and then inserts *)
+Theorem c09_contains_and_insert_result :
+  forall f S h0 h1, Rep f S ->
+  let '(b, f') := bf_contains_and_insert f h0 h1 in
+  (b = true <-> forall p, In p (item_positions f h0 h1) -> S p) /\
+  Rep f' (fun p => S p \/ In p (item_positions f h0 h1)) /\ same_cfg f f'.
+Proof. exact contains_and_insert_rep. Qed.
+
+(* non-vacuity: a concrete history over a 100-bit request (capacity 128, 3 hashes) with a collision
+   between two items (position 16), a union, a round trip; and one with invert *)
+Example c09_example :
+  let h := HRoundtrip (HUnion (HInsert (HInsert HNew 11 7) 5 9) (HContainsAndInsert HNew 100 3)) in
+  size_ok 100 3 9001 /\
+  exists f, eval 100 3 9001 h = Ok f /\ bf_capacity f = 128 /\ bf_used f = 8 /\
+            bf_contains f 11 7 = true /\ bf_contains f 100 3 = true /\ bf_contains f 1 1 = false /\
+            exists g, eval 100 3 9001 (HInvert h) = Ok g /\ bf_used g = 120 /\ bf_contains g 11 7 = false.
+Proof.
+  split; [vm_compute; repeat split; discriminate|].
+  eexists. split; [vm_compute; reflexivity|]. repeat split.
+  eexists. split; [vm_compute; reflexivity|]. repeat split.
+Qed.
